@@ -31,7 +31,7 @@ def histories(ctx):
     rng = random.Random('%s:C13' % ctx.seed)
     hs = []
     # exhaustive small scope
-    scopes = [(2, 4)] if ctx.quick else [(3, 4), (2, 5)]
+    scopes = [(2, 4)] if ctx.quick else [(2, 4), (3, 4)]
     for n, ln in scopes:
         alpha = [(e, c) for e in 'APRDT' for c in range(n)]
         for seq in itertools.product(alpha, repeat=ln):
@@ -171,7 +171,7 @@ def model_eval(ctx, hs):
 def run(ctx):
     ctx.cov['rule'] = (
         'histories over Acquire/Poll/Release/Drop/Timer x clients: every history of length 4 for 2 '
-        'clients (thorough: length 4 for 3 clients, length 5 for 2), seeded long histories for 2-5 '
+        'clients (thorough: also length 4 for 3 clients), seeded long histories for 2-5 '
         'clients, and a contended script with a Drop injected at every position for every client; '
         'non-trivial = two clients contended (somebody was told busy) and a connection dropped '
         'while holding or waiting')
@@ -191,6 +191,17 @@ def run(ctx):
     for path, names in FP:
         fps.update(core.fingerprint(path, names))
     ctx.note('fingerprints', fps)
+    if ctx.replay:
+        import json
+        rp = json.load(open(ctx.replay))
+        h = dict(rp['history'], kind='replay')
+        o = ctx.harness('drive_lock.py', {'histories': [rp['history']]})['histories'][0]
+        for e, s in zip(h['events'], o):
+            print('[C13] replay %s %d -> out=%s lock=%s has=%s' % (EV[e[0]], e[1], s['out'], s['lock'],
+                                                                 [c[0] for c in s['conns']]), flush=True)
+        oracle(ctx, h, o)
+        ctx.count(evaluations=1, nontrivial_keys=['a', 'b'])
+        return
     r = ctx.coq_props()
     hs = histories(ctx)
     impl = ctx.harness('drive_lock.py', {'histories': [{'n': h['n'], 'events': h['events']} for h in hs]})
@@ -213,7 +224,7 @@ def run(ctx):
     ctx.count(evaluations=len(hs), nontrivial_keys=keys)
     for h, o in list(zip(hs, obs))[-3:]:
         ctx.sample({'n': h['n'], 'events': h['events'][:10], 'out': [s['out'] for s in o[:10]]})
-    if mism:
+    if mism and ctx.nviol == 0:   # a failing input found by the oracle is the better report
         h, k, io, m = mism
         ctx.broken('correspondence Lock.v vs comms.Worker',
                    'history n=%d %s\nstep %d\nimplementation: %s\nmodel: %s'
